@@ -6,7 +6,10 @@ import (
 	"go/constant"
 	"go/token"
 	"go/types"
+	"math"
+	"reflect"
 	"sort"
+	"strconv"
 	"strings"
 
 	"golang.org/x/tools/go/packages"
@@ -23,9 +26,9 @@ func init() {
 		Explanation: "Decides the clauses of C14 whose truth is in the source: (names) Action.Unpack lower-cases its input and scans the same injective, lower-case map literal that String/MarshalText read, " +
 			"assigning only under the equality test and returning an error otherwise; the name/constant pairs equal the documented ones (UAPI values); Operation.Unpack does the same over the Operations " +
 			"slice, which equals the Operation const block; (keys) for every field of every struct type reachable from Policy the config, json and yaml keys agree, so what the marshallers write is what " +
-			"the config loader reads; both commands use key `seccomp` for a field of type seccomp.Policy. Not decided: what go-ucfg / yaml.v2 do with a concrete document at run time.",
-		Trusted:     []string{"go/types, go/ssa", "reflect.StructTag syntax", "go-ucfg: field key = `config` tag or lower-cased field name; yaml.v2: `yaml` tag or lower-cased field name; encoding/json: `json` tag or field name"},
-		Assumptions: []string{"behaviour of go-ucfg and yaml.v2 on concrete documents (number widths, validate tags) is third-party run-time behaviour and not analysed"},
+			"the config loader reads; both commands use key `seccomp` for a field of type seccomp.Policy; no plain numeric field carries a go-ucfg `validate` option that rejects a legal value (0, an index up to 5, any 64-bit operand). Not decided: what go-ucfg / yaml.v2 do with a concrete document at run time.",
+		Trusted:     []string{"go/types, go/ssa", "reflect.StructTag syntax", "go-ucfg: field key = `config` tag or lower-cased field name; validators required/nonzero/positive/min/max on numeric kinds as in go-ucfg v0.8 validator.go; yaml.v2: `yaml` tag or lower-cased field name; encoding/json: `json` tag or field name"},
+		Assumptions: []string{"behaviour of go-ucfg and yaml.v2 on concrete documents (number widths, validators on non-numeric fields) is third-party run-time behaviour and not analysed"},
 		Run:         runC14,
 	}
 }
@@ -375,7 +378,17 @@ func checkActionUnpack(e *Env, p *load.Program, table *types.Var) {
 					pol, ok := flow.CondHolds(flow.DomConds(ret.Block()), found)
 					good = good && ok && pol
 				} else if _, isConst := flow.RetResults(ret)[0].(*ssa.Const); !isConst {
-					good = false
+					// the text for a value without a name: a constant, or a formatted text that cannot be a name (its
+					// constant format contains a character no action name has)
+					ok := false
+					if c, isCall := flow.RetResults(ret)[0].(*ssa.Call); isCall && flow.CalleeIs(c, "fmt", "Sprintf") && len(c.Call.Args) > 0 {
+						if f, isK := flow.ConstString(c.Call.Args[0]); isK && strings.ContainsAny(f, "()[]<>#: ") {
+							ok = true
+						}
+					}
+					if !ok {
+						good = false
+					}
 				}
 			}
 		}
@@ -605,6 +618,7 @@ func checkTags(e *Env, p *load.Program, pk *packages.Package) {
 				ym = strings.ToLower(f.Name()) // yaml.v2 default
 			}
 			key := n.Obj().Name() + "." + f.Name()
+			checkValidateTag(e, p, key, f, tag)
 			r.Check(cfg == js && cfg == ym, "E4.tags", key, p.Pos(f.Pos()),
 				fmt.Sprintf("config=json=yaml=%q", cfg),
 				fmt.Sprintf("field %s is read from config key %q but written as json %q / yaml %q: a marshalled policy read back through the config path loses this field", key, cfg, js, ym))
@@ -613,6 +627,64 @@ func checkTags(e *Env, p *load.Program, pk *packages.Package) {
 	r.Count("struct types reachable from Policy", len(order))
 	r.Floor("E4.tags(types)", len(order), 4)
 	r.Floor("E4.tags(fields)", nFields, 10)
+}
+
+// checkValidateTag decides E4.tags.validate for one field: a go-ucfg `validate`
+// option on a plain numeric field narrows the set of numbers the configuration
+// path accepts, while the in-memory path accepts every argument index 0-5 and
+// every 64-bit operand, 0 included. go-ucfg v0.8 (validator.go, trusted):
+// `required` on an int, uint or float kind is `nonzero`; `nonzero`, `positive`
+// and `min=N` (N > 0) reject 0; `max=N` rejects everything above N. Types with
+// their own Unpack method are converted by that method and are not subject to
+// the numeric validators (Action carries `required` on the pinned tree and
+// kill_thread, whose value is 0, loads).
+func checkValidateTag(e *Env, p *load.Program, key string, f *types.Var, tag string) {
+	r := e.R
+	b, ok := f.Type().Underlying().(*types.Basic)
+	if !ok || b.Info()&(types.IsInteger|types.IsFloat) == 0 {
+		return
+	}
+	if hasMethod(f.Type(), "Unpack") {
+		return
+	}
+	v, _ := reflect.StructTag(tag).Lookup("validate")
+	var bad []string
+	for _, opt := range strings.Split(v, ",") {
+		opt = strings.TrimSpace(opt)
+		name, param := opt, ""
+		if i := strings.IndexByte(opt, '='); i >= 0 {
+			name, param = strings.TrimSpace(opt[:i]), strings.TrimSpace(opt[i+1:])
+		}
+		switch name {
+		case "required", "nonzero", "positive":
+			bad = append(bad, fmt.Sprintf("`%s` rejects 0", name))
+		case "min":
+			if n, err := strconv.ParseInt(param, 0, 64); err != nil || n > 0 {
+				bad = append(bad, fmt.Sprintf("`min=%s` rejects 0", param))
+			}
+		case "max":
+			n, err := strconv.ParseUint(param, 0, 64)
+			wide := b.Kind() == types.Uint64 || b.Kind() == types.Int64 || b.Kind() == types.Uint || b.Kind() == types.Int || b.Kind() == types.Uintptr
+			if err != nil || (wide && n != math.MaxUint64) || (!wide && n < 5) {
+				bad = append(bad, fmt.Sprintf("`max=%s` rejects larger values the in-memory path accepts", param))
+			}
+		}
+	}
+	r.Check(len(bad) == 0, "E4.tags.validate", key, p.Pos(f.Pos()),
+		fmt.Sprintf("numeric field %s carries no go-ucfg validator that rejects a legal value (validate:%q)", key, v),
+		fmt.Sprintf("numeric field %s carries validate:%q: %s, so a policy that compiles in memory (argument index 0-5, any 64-bit operand) is refused by the configuration path", key, v, strings.Join(bad, "; ")))
+}
+
+func hasMethod(t types.Type, name string) bool {
+	for _, tt := range []types.Type{t, types.NewPointer(t)} {
+		ms := types.NewMethodSet(tt)
+		for i := 0; i < ms.Len(); i++ {
+			if ms.At(i).Obj().Name() == name {
+				return true
+			}
+		}
+	}
+	return false
 }
 
 // checkCmdKeys: sandbox reads and profiler writes a seccomp.Policy under key "seccomp".
